@@ -449,6 +449,12 @@ func (ctx *Context) RegCustomDice(pattern string, handler CustomDiceHandler) err
 	if err != nil {
 		return err
 	}
+	// 只有从操作数开头匹配才算数，所以匹配时用锚定在开头的版本: 未锚定的表达式在匹配不上时会把余下的
+	// 输入整个扫一遍，每个操作数位置都扫一遍，长输入就成了平方级 (60000 层嵌套的 300KB 输入要跑几分钟)。
+	// 分组用 (?:) 包住，编号与各分支的优先级不变；个别合法的写法(如未闭合的 \Q)包起来后不再合法，那就仍用原式
+	if anchored, err2 := regexp.Compile("^(?:" + pattern + ")"); err2 == nil {
+		re = anchored
+	}
 	item := &customDiceItem{pattern: pattern, re: re, fn: handler}
 	ctx.CustomDiceInfo = append(ctx.CustomDiceInfo, item)
 	return nil
